@@ -127,7 +127,16 @@ def stmt(n):
     if k == 'CompoundStmt':
         return block(n)
     if is_assert(n) and k not in ('CompoundStmt', 'IfStmt', 'ForStmt', 'CXXForRangeStmt', 'CXXTryStmt', 'WhileStmt'):
-        return []          # MOMO_ASSERT(..): no effect on the protocol
+        # C02: MOMO_ASSERT(c) / MOMO_CHECK(c) are kept as OBLIGATIONS: SAssert c (the interpreter gets Stuck when c is false).
+        # MOMO_CHECK(c) = do { MOMO_ASSERT(checkMode != CheckMode::assertion || (c)); if (checkMode == exception) throw ..; } while (false):
+        # with the default check mode (assertion) the obligation is c itself.
+        c = cxx2coq.find_assert_cond(n)
+        if c is None:
+            return ['SOther "assert"']
+        c = unwrap(c)
+        if c.get('kind') == 'BinaryOperator' and c.get('opcode') == '||' and 'checkMode' in json.dumps(c['inner'][0]):
+            c = c['inner'][1]
+        return ['SAssert (%s)' % expr(c)]
     if k == 'DeclStmt':
         out = []
         for v in inner:
